@@ -189,6 +189,23 @@ def impl_netw(pn, Wp):
             attempt(Network.weighted_local_clustering, Wp) if Wp.any() else None]
 
 
+def betw_request(A, w, S, T, perm):
+    n = A.shape[0]
+    return (f"betw {','.join(map(str, perm))} {enc_boolmat(A)} "
+            f"{enc_rats([Fraction(float(x)) for x in w])} {enc_bools([v in S for v in range(n)])} "
+            f"{','.join(map(str, T)) or '-'}")
+
+
+def impl_betw(pnet, S, T, perm):
+    """the 3 sections of `betwRelabelled`: the renumbered target list, and — for C03's kernel model
+    and for its definition alike — `nsi_betweenness(sources, targets)` of the renumbered network
+    called with the node lists renumbered through the inverse permutation (list order kept)"""
+    inv = np.argsort(np.array(perm))
+    Sp, Tp = [int(inv[k]) for k in S], [int(inv[k]) for k in T]
+    got = attempt(pnet.nsi_betweenness, sources=Sp, targets=Tp)
+    return [[float(x) for x in Tp], got, got]
+
+
 def impl_net(pnet, directed, connected):
     """the 26 sections of `netRelabelled`, `None` where the implementation's notion differs
     (undirected notions on directed networks, closeness on unconnected ones)"""
@@ -959,6 +976,13 @@ def run(ctx):
             # round 3: the C03 / C11 / C12 models on the renumbered input == permuted_copy
             reqs.append(net_request(A, directed, w, perm))
             meta.append(("net", gi, perm, impl_net(pnet, directed, connected)))
+            # round 5: C03's kernel model of `_nsi_betweenness` and its definition on the renumbered
+            # input == nsi_betweenness(sources, targets) of permuted_copy with renumbered node lists
+            if not directed and n >= 3 and (not quick or rng.random() < 0.5):
+                S = sorted(rng.sample(range(n), rng.randrange(1, n + 1)))
+                T = rng.sample(range(n), rng.randrange(1, n + 1))
+                reqs.append(betw_request(A, w, S, T, perm))
+                meta.append(("betw", gi, perm, impl_betw(pnet, S, T, perm)))
             # round 5: link-weighted clustering (`key=` path; cubic roots 1/2, 1, 2, 3 of the attribute)
             if A.sum() > 0:
                 M3 = np.where(W > 0, W, 0.0)
@@ -976,8 +1000,14 @@ def run(ctx):
                 meta.append(("geo", gi, perm, impl_geo(mk_spatial(perm))))
             # generic oracle on the implementation
             # non-default call patterns on a sample of the (graph, permutation) pairs in the quick tier
+            # round 5: measures with a required `order` argument are invisible to the introspection
+            # of zero-argument methods (a mutation of the cliquishness kernel broke the `net`
+            # correspondence without a failing input): called explicitly for every implemented order
             equivariance(ctx, "Network", mk_net, perm, meas["Network"], n, base,
-                         variants=(not quick) or rng.random() < 0.12)
+                         variants=(not quick) or rng.random() < 0.12,
+                         extra_calls=[(m_, (o_,), {}) for m_ in ("local_cliquishness",
+                                                                 "higher_order_transitivity")
+                                      for o_ in (3, 4, 5)])
             if A.sum() > 0:
                 # round 3: non-default call patterns (geometry_corrected=True, ...) of the
                 # spatial / geo measures as well; they are cheap, so on every pair
@@ -1008,7 +1038,7 @@ def run(ctx):
     timeseries_networks(ctx, reqs, meta)
     model = common.driver(ctx.pid, reqs)
     bad_rel, bad_eval, nvals = [], [], 0
-    TOL = {"net": 1e-9, "netw": 1e-9, "cross": 1e-9, "res": 1e-6, "geo": 1e-5, "rec": 0.0, "lattr": 0.0}
+    TOL = {"net": 1e-9, "betw": 1e-9, "netw": 1e-9, "cross": 1e-9, "res": 1e-6, "geo": 1e-5, "rec": 0.0, "lattr": 0.0}
     r3_vals = {k: 0 for k in TOL}
     r3_bad = {k: [] for k in TOL}
     for ans, (kind, gi, perm, impl) in zip(model, meta):
@@ -1046,6 +1076,8 @@ def run(ctx):
     names = {"net": "C03 model `Net` (degrees, motif clustering, matching index, BFS distances, path "
                     "measures, coreness peeling, n.s.i. degree / clustering / closeness, assortativity, "
                     "local vulnerability = node removal + BFS + efficiencies, cliquishness kernels)",
+             "betw": "C03 model `NetBetw` (kernel model of _nsi_betweenness *and* its definition, with node "
+                     "weights, source mask and target list renumbered with the nodes)",
              "netw": "C03 model `Net` / `NetRW` (link-weighted `key=` motif clustering, "
                      "weighted_local_clustering with the renumbered link attribute)",
              "cross": "C11 model `Cross` (cross / internal measures with node lists renumbered by "
